@@ -621,7 +621,8 @@ pub fn gen_c06<W: Write>(out: &mut W, thorough: bool, seed: u64) {
             writeln!(out, "caleq {} {}", hu, hn).unwrap();
         }
     }
-    // malformed stream
+    // malformed stream (handles from 1_000_000: outside the pairwise cross-check)
+    next = 1_000_000;
     let bad = [
         "", "xyz", "tgt,", ",tgt", "tgt||fed", "tgt|fed|nyc", "tgt |fed", " tgt", "tgt,xyz", "tgt|xyz",
         "|", "tgt|", "|tgt", "a|b|c|d", "TGT,LDN|FED", "tgt,,ldn", "Tgt", "nyc|nyc", "fed ", "tgT,ldN",
